@@ -376,7 +376,7 @@ Proof.
 Qed.
 
 (* the registry of readers: add a line here when a new reader appears *)
-Ltac rd_lemma :=
+Ltac rd_lemma0 :=
   change (d_rd a_ops) with a_reader;
   first [ apply r_u8_g | apply read_i8_g | apply read_be_g | apply read_signed_g
         | apply read_var_u32_g | apply read_var_i32_g | apply r_bytes_g
@@ -385,18 +385,40 @@ Ltac rd_lemma :=
 
 (* a uniform tactic for any composition of readers through bind, if and match:
    the FIRST reader pays the k bytes of the goal, the rest is proved with k = 0 *)
-Ltac rd_compose k :=
+Ltac rd_compose_with rd k :=
   lazymatch goal with
   | |- gP _ _ _ (Ok _) _ => apply g_ok
   | |- gP _ _ _ (Err _) _ => exact I
   | |- gP _ _ _ (Panic _) _ => exact I
   | |- gP _ _ _ (bind _ _) _ =>
       eapply (gP_bind _ k 0);
-      [ rd_lemma | intros ? ? _ _ _; cbv beta iota zeta; rd_compose 0 | lia ]
-  | |- gP _ _ _ (if ?c then _ else _) _ => destruct c; rd_compose k
-  | |- gP _ _ _ (match ?v with _ => _ end) _ => destruct v; rd_compose k
-  | |- _ => rd_lemma
+      [ rd | intros ? ? _ _ _; cbv beta iota zeta; rd_compose_with rd 0 | lia ]
+  | |- gP _ _ _ (if ?c then _ else _) _ => destruct c; rd_compose_with rd k
+  | |- gP _ _ _ (match ?v with _ => _ end) _ => destruct v; rd_compose_with rd k
+  | |- _ => rd
   end.
+
+(* the chrono sub-decoders (features/chrono.rs): compositions of the readers above *)
+Lemma dec_small_g nf k lo hi s : k <= 1 -> g nf k (dec_small a_ops lo hi s) s.
+Proof. intros Hk. unfold dec_small. change (d_rd a_ops) with a_reader. rd_compose_with rd_lemma0 k. Qed.
+Lemma dec_offset_g nf k s : k <= 1 -> g nf k (dec_offset a_ops s) s.
+Proof. intros Hk. unfold dec_offset. change (d_rd a_ops) with a_reader. rd_compose_with rd_lemma0 k. Qed.
+Lemma dec_tz_g nf k s : k <= 1 -> g nf k (dec_tz a_ops s) s.
+Proof. intros Hk. unfold dec_tz. change (d_rd a_ops) with a_reader. rd_compose_with rd_lemma0 k. Qed.
+Lemma dec_ndate_g nf k s : k <= 1 -> g nf k (dec_ndate a_ops s) s.
+Proof. intros Hk. unfold dec_ndate. change (d_rd a_ops) with a_reader. rd_compose_with rd_lemma0 k. Qed.
+Lemma dec_ntime_g nf k s : k <= 1 -> g nf k (dec_ntime a_ops s) s.
+Proof. intros Hk. unfold dec_ntime. change (d_rd a_ops) with a_reader. rd_compose_with rd_lemma0 k. Qed.
+
+Ltac rd_lemma1 :=
+  first [ rd_lemma0
+        | (first [ apply dec_small_g | apply dec_offset_g | apply dec_tz_g | apply dec_ndate_g | apply dec_ntime_g ]; lia) ].
+
+Lemma dec_ndt_g nf k s : k <= 1 -> g nf k (dec_ndt a_ops s) s.
+Proof. intros Hk. unfold dec_ndt. rd_compose_with rd_lemma1 k. Qed.
+
+Ltac rd_lemma := first [ rd_lemma1 | (apply dec_ndt_g; lia) ].
+Ltac rd_compose k := rd_compose_with rd_lemma k.
 
 (* ================================================================== *)
 (*  PRIMITIVES: never Fuel, and every prim but PUnit consumes a byte   *)
